@@ -217,11 +217,15 @@ def check(run: Run, prog: Program, model: Model, tier: str) -> None:
         if isinstance(n, ast.If) and isinstance(n.test, ast.Call) and isinstance(n.test.func, ast.Name) and n.test.func.id == "isinstance" \
                 and "dict" in names(n.test) and any(isinstance(c, ast.Call) and isinstance(c.func, ast.Name) and c.func.id == fn.name for c in ast.walk(n)):
             rec_ok = True
+    any_rec = any(isinstance(n, ast.Call) and isinstance(n.func, ast.Name) and n.func.id == fn.name for n in ast.walk(fn))
     if rec_ok:
         run.holds("RECURSE", "rollout: dict-valued groups", site, "every dict-valued entry is rolled out recursively, others kept as is", nontrivial=True)
-    else:
-        run.violated("RECURSE", "rollout: dict-valued groups", site, "grouped tails are not rolled out recursively (or leaves are rewritten)",
+    elif not any_rec:
+        run.violated("RECURSE", "rollout: dict-valued groups", site, "grouped tails are never rolled out recursively",
                      witness="rollout({'a.b.c': 1}) yields {'a': {'b.c': 1}}")
+    else:
+        run.undecided("RECURSE", "rollout: dict-valued groups", site,
+                      "recursion is guarded by a condition other than isinstance(v, dict): whether every group is still rolled out cannot be decided")
     ell_ok = False
     for n in ast.walk(loop):
         if isinstance(n, ast.If) and "is_ellipsis" in names(n.test):
